@@ -169,10 +169,12 @@ struct RefToLib {
     scratch: Scratch,
 }
 // axes: texture(6) method(3) crypto(3) single_unit(2) listfile(2) hash_size(2) shift version(2)
+// thorough adds: sector checksums {none, raw checksum sector, compressed checksum sector}, user-data prefix {none, 1024 bytes},
+// deleted hash slots {none, every third slot of the first 48}
 impl RefToLib {
     fn new(tier: Tier) -> Self {
         let shifts: Vec<u16> = tier.pick(vec![0, 3], vec![0, 1, 3, 5, 8]);
-        let radices = vec![6, 3, 3, 2, 2, 2, shifts.len() as u64, 2];
+        let radices = vec![6, 3, 3, 2, 2, 2, shifts.len() as u64, 2, tier.pick(1, 3), tier.pick(1, 2), tier.pick(1, 2)];
         RefToLib { shifts, radices, scratch: Scratch::new("c02b") }
     }
 }
@@ -183,7 +185,8 @@ impl Space for RefToLib {
     fn describe(&self, i: u64) -> Value {
         let d = gen::mixed_radix(i, &self.radices);
         json!({"direction": "reference writes, library reads", "texture": gen::TEXTURES[d[0] as usize], "method": (["none","zlib","bzip2"][d[1] as usize]),
-               "crypto": CRYPTO_NAMES[d[2] as usize], "single_unit": d[3]==1, "listfile": d[4]==0, "hash_size": ([512,1024][d[5] as usize]), "shift": self.shifts[d[6] as usize], "version": format!("V{}", d[7]+1)})
+               "crypto": CRYPTO_NAMES[d[2] as usize], "single_unit": d[3]==1, "listfile": d[4]==0, "hash_size": ([512,1024][d[5] as usize]), "shift": self.shifts[d[6] as usize], "version": format!("V{}", d[7]+1),
+               "sector_crc": (["none","raw checksum sector","compressed checksum sector"][d[8] as usize]), "userdata_prefix": d[9]==1, "deleted_hash_slots": d[10]==1})
     }
     fn run(&self, i: u64) -> CaseResult {
         let d = gen::mixed_radix(i, &self.radices);
@@ -198,8 +201,16 @@ impl Space for RefToLib {
             .iter()
             .map(|(n, data)| WFile { name: n.replace('/', "\\").into_bytes(), data: data.clone(), method, encrypt: d[2] > 0, fix_key: d[2] == 2, single_unit: d[3] == 1, raw_flags: 0, in_listfile: true })
             .collect();
-        let opt = WOptions { version: d[7] as u16, shift, hash_size: [512, 1024][d[5] as usize], listfile: d[4] == 0, userdata_prefix: 0, deleted_slots: vec![] };
-        let bytes = mpqref::write(&wf, &opt).expect("reference writer");
+        let opt = WOptions {
+            version: d[7] as u16,
+            shift,
+            hash_size: [512, 1024][d[5] as usize],
+            listfile: d[4] == 0,
+            userdata_prefix: if d[9] == 1 { 1024 } else { 0 },
+            deleted_slots: if d[10] == 1 { (0..48).step_by(3).collect() } else { vec![] },
+        };
+        let ext = mpqref::WExt { sector_crc: d[8] > 0, crc_sector_compressed: d[8] == 2 };
+        let bytes = mpqref::write_with(&wf, &opt, &ext).expect("reference writer");
         // self-check of the reference (machinery sanity): it must read its own archive
         let p = mpqref::parse(&bytes).expect("reference parses its own archive");
         for (n, data) in &files {
